@@ -782,3 +782,121 @@ def rule_set_algebra(db: ProgramDB) -> List[Instance]:
                         "fall out of the combined set: the operator's cache and duplicate keys lose them and rows that differ only there are merged",
                         line=m.lineno))
     return out
+
+
+# ---------------------------------------------------------------------------------- PULLED-RECORD
+def rule_pulled_record(db: ProgramDB) -> List[Instance]:
+    """The record of what was pulled from the one-shot source is how a suspended iteration catches up with what another
+    iteration (or a lookup by id) pulled meanwhile.  It says exactly 'these came out of the source, in this order': (a) it is
+    appended to only with the value just taken from the source (the target of the enclosing loop over `self.iterable`) - a value
+    that gets into the memo another way (add(), update(): a rule registering the instance it has just built) was not pulled, and
+    handing it to a suspended iteration makes a rule feed on its own output within one evaluation; (b) it is emptied only by
+    clear() - an iteration that has caught up must not take the record away from iterations that are further back."""
+    out = []
+    hi = db.cls("HashedIterable")
+    rec = [f.name for f in hi.fields() if f.name == "pulled"]
+    if not rec:
+        raise AnalysisError("HashedIterable.pulled not found")
+    n = 0
+    for name, m in hi.methods.items():
+        if m.cls is not hi:
+            continue
+        for x in own_nodes(m.node):
+            if isinstance(x, ast.Call) and isinstance(x.func, ast.Attribute) and isinstance(x.func.value, ast.Attribute) and x.func.value.attr == "pulled" \
+                    and unparse(x.func.value.value) == "self":
+                n += 1
+                if x.func.attr in ("append", "extend", "insert"):
+                    arg = x.args[-1] if x.args else None
+                    loops = []
+                    y = x
+                    while y is not None and y is not m.node:
+                        y = db.parent(y)
+                        if isinstance(y, ast.For):
+                            loops.append(y)
+                    ok = isinstance(arg, ast.Name) and any(isinstance(l.target, ast.Name) and l.target.id == arg.id and "self.iterable" in unparse(l.iter) for l in loops)
+                    out.append(inst("PULLED-RECORD", HOLDS if ok else VIOLATION, m, f"{m.short}[{unparse(x)[:40]}]",
+                                    "records the value just taken from the source" if ok else
+                                    f"`{unparse(x)}` records a value that was not taken from the source here: a suspended iteration over this object is handed it as if it had been "
+                                    f"pulled - a variable without a domain that iterates the registry while a rule adds the instances it builds sees them in the same "
+                                    f"evaluation (the rule feeds on its own output)", line=x.lineno))
+                elif x.func.attr in ("clear", "pop", "remove") and name != "clear":
+                    out.append(inst("PULLED-RECORD", VIOLATION, m, f"{m.short}[{unparse(x)[:40]}]",
+                                    f"`{unparse(x)}` empties the record outside clear(): an iteration that is suspended further back finds nothing to catch up with and an "
+                                    f"exhausted source - it ends early and its remaining results are lost (two result iterators of one query advanced alternately)", line=x.lineno))
+                elif name == "clear":
+                    out.append(inst("PULLED-RECORD", HOLDS, m, f"{m.short}[{unparse(x)[:40]}]", "emptied together with the memo", line=x.lineno))
+            if isinstance(x, (ast.Assign, ast.AugAssign, ast.Delete)):
+                tg = x.targets if isinstance(x, (ast.Assign, ast.Delete)) else [x.target]
+                if any(isinstance(t, (ast.Attribute, ast.Subscript)) and "self.pulled" in unparse(t) for t in tg) and name not in ("__init__", "__post_init__"):
+                    n += 1
+                    out.append(inst("PULLED-RECORD", VIOLATION, m, f"{m.short}[{unparse(x)[:40]}]", f"`{unparse(x)[:60]}` rebinds / deletes from the record outside clear()", line=x.lineno))
+    if n < 3:
+        raise AnalysisError(f"only {n} writes of the record found")
+    return out
+
+
+# ---------------------------------------------------------------------------------- EXPRESSION-NOT-ITERATED
+def rule_expression_not_iterated(db: ProgramDB) -> List[Instance]:
+    """A Variable is iterable: iterating it enumerates its domain (that is how its evaluation pulls values).  Outside that, handing an
+    expression to something that iterates its argument - `set.update(var)`, `list(var)`, `for _ in var`, `*var` - walks the whole
+    domain as a side effect: results stay right, and a lazily supplied one-shot domain is consumed to the end before the first
+    result is delivered.  Typed rule: names bound to the elements of a field annotated as a collection of expressions (or
+    parameters annotated as expressions) do not occur in an iterating position."""
+    out = []
+    se = db.cls("SymbolicExpression")
+    ITER_CALLS = ("list", "set", "tuple", "sorted", "frozenset", "sum", "any", "all", "max", "min", "enumerate", "zip", "iter")
+    ITER_METHODS = ("update", "extend", "union", "difference", "intersection")
+    n_names = 0
+    for c in sorted([se] + se.all_subclasses(), key=lambda k: k.qualname):
+        for m in c.methods.values():
+            if m.cls is not c:
+                continue
+            typed: Set[str] = set()
+            a = m.node.args
+            for p_ in a.posonlyargs + a.args + a.kwonlyargs:
+                if p_.annotation is not None and p_.arg != "self":
+                    cls_ = db.annotation_classes(c.module, p_.annotation)
+                    u = unparse(p_.annotation)
+                    if cls_ and all(k.is_subclass_of(se) or k is se for k in cls_) and not any(w in u for w in ("List", "Dict", "Iterable", "Set", "Tuple", "list", "dict")):
+                        typed.add(p_.arg)
+            for l in own_nodes(m.node):
+                tgt, it = None, None
+                if isinstance(l, (ast.For, ast.comprehension)):
+                    tgt, it = l.target, l.iter
+                if tgt is None or not isinstance(tgt, ast.Name):
+                    continue
+                base = it
+                if isinstance(base, ast.Call) and isinstance(base.func, ast.Attribute) and base.func.attr == "values" and not base.args:
+                    base = base.func.value
+                if isinstance(base, ast.Attribute) and isinstance(base.value, ast.Name) and base.value.id == "self":
+                    fld = next((f for k in c.mro for f in k.own_fields if f.name == base.attr), None)
+                    if fld is not None and fld.annotation is not None:
+                        u = unparse(fld.annotation)
+                        cls_ = db.annotation_classes(c.module, fld.annotation)
+                        if cls_ and any(k.is_subclass_of(se) for k in cls_) and any(w in u for w in ("List", "Dict", "Iterable", "Tuple", "list", "dict")) \
+                                and "HashedIterable" not in u and "HashedValue" not in u:
+                            typed.add(tgt.id)
+            if not typed:
+                continue
+            n_names += len(typed)
+            bad = None
+            for x in own_nodes(m.node):
+                if isinstance(x, ast.Call):
+                    nm = dotted(x.func) or ""
+                    if (nm in ITER_CALLS or (isinstance(x.func, ast.Attribute) and x.func.attr in ITER_METHODS)) and any(isinstance(g, ast.Name) and g.id in typed for g in x.args):
+                        bad = (x, next(g.id for g in x.args if isinstance(g, ast.Name) and g.id in typed))
+                if isinstance(x, (ast.For, ast.comprehension)) and isinstance(x.iter, ast.Name) and x.iter.id in typed:
+                    bad = (x.iter, x.iter.id)
+                if isinstance(x, ast.Starred) and isinstance(x.value, ast.Name) and x.value.id in typed:
+                    bad = (x, x.value.id)
+                if bad:
+                    break
+            out.append(inst("EXPRESSION-NOT-ITERATED", VIOLATION if bad else HOLDS, m, f"{m.short}[{', '.join(sorted(typed))[:40]}]",
+                            "no expression is handed to something that iterates it" if not bad else
+                            f"`{unparse(bad[0])[:60]}` iterates `{bad[1]}`, which is an expression: iterating a Variable enumerates its domain, so the whole of a lazily supplied "
+                            f"one-shot domain is pulled here (while the required variables of a disjunction are collected) before the first result is delivered",
+                            line=getattr(bad[0], "lineno", m.lineno) if bad else m.lineno))
+    if n_names < 5:
+        raise AnalysisError(f"only {n_names} expression-typed names found")
+    return out
+
